@@ -75,12 +75,15 @@ HardAll(W, S, call, env, sz) ==
 (* ------------------------------ solutions ------------------------------ *)
 \* candidate environments: every used-random scalar ranges over its type, the rest is fixed.
 \* (only for fixed-size calls: random sizes are handled by the list clauses)
-TypeVals(W, x) == LET t == TypeOfPath(W, x) IN AllVecs(t.w)
+TypeVals(W, x) == LET t == TypeOfPath(W, x) IN
+                  IF x \in DOMAIN W.scalars /\ Len(W.scalars[x].enum) > 0
+                  THEN {W.scalars[x].enum[i] : i \in 1..Len(W.scalars[x].enum)}     \* an enum field ranges over its enumerators
+                  ELSE AllVecs(t.w)
 Candidates(W, S, call, env) ==
   LET used == UsedRand(W, S, SeqSet(call.roots)) IN
   {[x \in DOMAIN env |-> IF x \in used THEN f[x] ELSE env[x]] : f \in [used -> UNION {TypeVals(W, x) : x \in used}]}
 \* NB: ill-typed candidates (wrong width) are filtered here
-WellTyped(W, e) == \A x \in DOMAIN e : Len(e[x]) = TypeOfPath(W, x).w
+WellTyped(W, e) == \A x \in DOMAIN e : Len(e[x]) = TypeOfPath(W, x).w /\ (x \in DOMAIN W.scalars => EnumOK(W, x, e[x]))
 Sol(W, S, call, env) ==
   {e \in Candidates(W, S, call, env) : WellTyped(W, e) /\ HardAll(W, S, call, e, S.sz) = "T"}
 \* TRUE iff some candidate definitely satisfies everything (candidates touching an open zone do
@@ -446,7 +449,9 @@ ExploreClauses(W, S, ev) ==
                              \A j \in 1..k : ev.paths[j] \in SeqSet(ev.uniform) =>
                                 LET F == feas(j) IN
                                 (ev.paths[j] \in DOMAIN ev.bounds
-                                 /\ {m \in 0..(2 ^ TypeOfPath(W, ev.paths[j]).w - 1) :
+                                 /\ {m \in (IF Len(W.scalars[ev.paths[j]].enum) > 0         \* an enum field ranges over its enumerators
+                                            THEN {ToNat(W.scalars[ev.paths[j]].enum[i]) : i \in 1..Len(W.scalars[ev.paths[j]].enum)}
+                                            ELSE 0..(2 ^ TypeOfPath(W, ev.paths[j]).w - 1)) :
                                         InRanges(IntOf(W, ev.paths[j], NatBits(m, TypeOfPath(W, ev.paths[j]).w)), ev.bounds[ev.paths[j]])} = F)
                                 => \A v \in F : FracEq(probOf(j, v), <<1, Cardinality(F)>>),
     memo_equal        |-> (ev.complete /\ ev.memo_eq # "") =>                                        \* C20: program pairs
